@@ -107,15 +107,18 @@ def parseTrailerLoop (disableNorm : Bool) : Nat → Bytes → List (Bytes × Opt
       else if isBadTrailer key then parseTrailerLoop disableNorm fuel rest tr true (hlen + n)
       else parseTrailerLoop disableNorm fuel rest (updateTrailer tr key value) false (hlen + n)
 
-/-- `parseTrailer(t, buf)` for a non-empty `buf` -/
+/-- `parseTrailer(t, buf)` for a non-empty `buf`.  A repeated zero-length chunk line `0\r\n` in front of the
+trailer section is skipped and counted; anything else starting with `0` is a trailer field. -/
 def parseTrailer (disableNorm : Bool) (tr : List (Bytes × Option Bytes)) (buf : Bytes) :
     Except TrErr (List (Bytes × Option Bytes) × Nat) :=
   match buf with
   | 48 :: rest =>
-    if buf.length < 3 then .error .bad    -- io.EOF from parseTrailer: reported as a header error unless the wire is at EOF
-    else match parseTrailerLoop disableNorm (buf.length + 1) (rest.drop 2) tr false 0 with
-      | .ok (t, n) => .ok (t, n)     -- NB: HLen does not include the three skipped bytes
+    if buf.length < 3 then .error .needMore   -- too short to tell a `0\r\n` line from a field name starting with `0`
+    else if rest.take 2 = strCRLF then
+      match parseTrailerLoop disableNorm (buf.length + 1) (rest.drop 2) tr false 0 with
+      | .ok (t, n) => .ok (t, n + 3)
       | .error x => .error x
+    else parseTrailerLoop disableNorm (buf.length + 1) buf tr false 0
   | _ => parseTrailerLoop disableNorm (buf.length + 1) buf tr false 0
 
 end Hertz.H1
